@@ -57,6 +57,12 @@ struct Intervention {
 /// Run one path: send, optional configure, then service wake-ups with the given pattern vector
 /// (exact once the vector is exhausted) until nothing is outstanding.
 fn run_path(prop: &'static str, sealed: bool, tcp: bool, cfg_idx: Option<u8>, pats: &[Pat], iv: Option<Intervention>, acc: &mut Acc) {
+    run_path2(prop, sealed, tcp, cfg_idx, pats, iv, None, acc)
+}
+
+/// As `run_path`, with up to two interventions (the second at the same or a later wake-up).
+#[allow(clippy::too_many_arguments)]
+fn run_path2(prop: &'static str, sealed: bool, tcp: bool, cfg_idx: Option<u8>, pats: &[Pat], iv: Option<Intervention>, iv2: Option<Intervention>, acc: &mut Acc) {
     let mut real = Real::new(tcp, base_instant());
     let mut spec = Spec::new(tcp);
     let mut steps: Vec<Step> = Vec::new();
@@ -103,7 +109,7 @@ fn run_path(prop: &'static str, sealed: bool, tcp: bool, cfg_idx: Option<u8>, pa
         }
         if let Some(i) = iv {
             if i.at == wake_no {
-                let now = spec.now;
+                let now = if matches!(i.act, Act::Poll { when: When::Past, .. }) { spec.resolve_time(&i.act).unwrap_or(spec.now) } else { spec.now };
                 if !exec(&mut spec, &mut real, &mut steps, i.act, now, acc) {
                     return;
                 }
@@ -111,6 +117,17 @@ fn run_path(prop: &'static str, sealed: bool, tcp: bool, cfg_idx: Option<u8>, pa
         }
         if spec.live.is_empty() {
             break; // the intervention completed the transaction (response delivered)
+        }
+        if let Some(i) = iv2 {
+            if i.at == wake_no {
+                let now = if matches!(i.act, Act::Poll { when: When::Past, .. }) { spec.resolve_time(&i.act).unwrap_or(spec.now) } else { spec.now };
+                if !exec(&mut spec, &mut real, &mut steps, i.act, now, acc) {
+                    return;
+                }
+            }
+        }
+        if spec.live.is_empty() {
+            break;
         }
         let wake = spec.wake().unwrap().max(spec.now);
         let pat = pats.get(wake_no).copied().unwrap_or(Pat::Exact);
@@ -179,7 +196,12 @@ pub fn sweep(ctx: &Ctx) -> Acc {
     let mut acts: Vec<Act> = (0..N_NAMED_CFGS as u8).map(|c| Act::Configure { id: 0, cfg: c }).collect();
     acts.push(Act::CancelRtx { id: 0 });
     acts.push(Act::Cancel { id: 0 });
-    acc1.merge(interventions(ctx, "C06", false, &acts))
+    // a poll whose instant lies before the previous call's (a stale clock sample)
+    acts.push(Act::Poll { when: When::Past, order: 0 });
+    // pairs: reconfigure / cancel_retransmissions / dropped response, then reconfigure / cancel_retransmissions
+    let firsts: Vec<Act> = (0..N_NAMED_CFGS as u8).map(|c| Act::Configure { id: 0, cfg: c }).chain([Act::CancelRtx { id: 0 }, Act::Resp { id: 0, class: 2, auth: Auth::None, from: 0 }]).collect();
+    let seconds: Vec<Act> = (0..N_NAMED_CFGS as u8).map(|c| Act::Configure { id: 0, cfg: c }).chain([Act::CancelRtx { id: 0 }]).collect();
+    acc1.merge(interventions(ctx, "C06", false, &acts)).merge(pair_interventions(ctx, "C06", true, &firsts, &seconds))
 }
 
 /// Single-transaction paths to completion with one intervention at every step index, under two
@@ -205,6 +227,35 @@ pub fn interventions(ctx: &Ctx, prop: &'static str, sealed: bool, acts: &[Act]) 
         .par_iter()
         .fold(Acc::default, |mut acc, (tcp, c, iv, pat)| {
             run_path(prop, sealed, *tcp, *c, &vec![*pat; 12], Some(*iv), &mut acc);
+            acc
+        })
+        .reduce(Acc::default, |a, b| a.merge(b))
+}
+
+/// Two interventions at every pair of positions (i <= j) of single-transaction schedules: what one
+/// call leaves behind only shows when a later call of another kind meets it.
+pub fn pair_interventions(ctx: &Ctx, prop: &'static str, sealed: bool, first: &[Act], second: &[Act]) -> Acc {
+    let thorough = ctx.tier == Tier::Thorough;
+    let bases: Vec<Option<u8>> = if thorough { vec![None, Some(1), Some(2), Some(3), Some(4)] } else { vec![None, Some(1), Some(3)] };
+    let mut jobs: Vec<(bool, Option<u8>, Intervention, Intervention)> = Vec::new();
+    for tcp in [false, true] {
+        for b in &bases {
+            let (_, n, _) = b.map(cfg).unwrap_or((500, 6, 8000));
+            let k = if tcp { 1 } else { n as usize + 1 };
+            for i in 0..=k {
+                for j in i..=k {
+                    for a in first {
+                        for c in second {
+                            jobs.push((tcp, *b, Intervention { at: i, act: *a }, Intervention { at: j, act: *c }));
+                        }
+                    }
+                }
+            }
+        }
+    }
+    jobs.par_iter()
+        .fold(Acc::default, |mut acc, (tcp, c, i1, i2)| {
+            run_path2(prop, sealed, *tcp, *c, &[Pat::Exact; 12], Some(*i1), Some(*i2), &mut acc);
             acc
         })
         .reduce(Acc::default, |a, b| a.merge(b))
@@ -239,7 +290,9 @@ pub fn completion_sweep(ctx: &Ctx) -> Acc {
             sealed.push(Act::Resp { id: 0, class: f, auth, from: 0 });
         }
     }
-    plain.merge(interventions(ctx, "C05", true, &sealed))
+    let firsts = [Act::Configure { id: 0, cfg: 1 }, Act::Configure { id: 0, cfg: 4 }, Act::CancelRtx { id: 0 }, Act::Resp { id: 0, class: 4, auth: Auth::None, from: 0 }, Act::Send { id: 0, dest: 1, seal: Seal::None, shape: 0 }, Act::Incoming { class: 0, id: 0, from: 0 }];
+    let seconds = [Act::Resp { id: 0, class: 2, auth: Auth::Sha1(1), from: 0 }, Act::Resp { id: 0, class: 3, auth: Auth::None, from: 0 }, Act::Cancel { id: 0 }, Act::CancelRtx { id: 0 }, Act::Configure { id: 0, cfg: 3 }, Act::Configure { id: 0, cfg: 0 }];
+    plain.merge(interventions(ctx, "C05", true, &sealed)).merge(pair_interventions(ctx, "C05", true, &firsts, &seconds)).merge(pair_interventions(ctx, "C05", false, &firsts, &seconds))
 }
 
 /// C18: every transmission of every schedule of the family carries the request's bytes and
@@ -252,7 +305,9 @@ pub fn transmission_sweep(ctx: &Ctx) -> Acc {
     acts.push(Act::SendOther { kind: 3, dest: 1 });
     acts.push(Act::SendOther { kind: DATA_KIND, dest: 2 });
     acts.push(Act::Send { id: 1, dest: 2, seal: Seal::None, shape: 1 });
-    interventions(ctx, "C18", true, &acts)
+    let firsts = [Act::Configure { id: 0, cfg: 1 }, Act::Configure { id: 0, cfg: 4 }, Act::CancelRtx { id: 0 }, Act::SetLocal { key: 0 }, Act::SetRemote { key: 2 }, Act::Send { id: 1, dest: 2, seal: Seal::Sha256, shape: 1 }];
+    let seconds = [Act::Configure { id: 0, cfg: 3 }, Act::Resp { id: 0, class: 2, auth: Auth::Sha1(2), from: 2 }, Act::SendOther { kind: 2, dest: 1 }, Act::Cancel { id: 1 }];
+    interventions(ctx, "C18", true, &acts).merge(pair_interventions(ctx, "C18", true, &firsts, &seconds))
 }
 
 /// C07: an authenticated request with remote credentials R1; at every position of every schedule
@@ -270,7 +325,10 @@ pub fn forgery_sweep(ctx: &Ctx) -> Acc {
             acts.push(Act::Resp { id: 0, class: f, auth, from: 0 });
         }
     }
-    interventions(ctx, "C07", true, &acts)
+    // pairs: a forged response / a change of remote credentials, then a genuine or forged response
+    let firsts = [Act::Resp { id: 0, class: 2, auth: Auth::Sha1(2), from: 0 }, Act::Resp { id: 0, class: 2, auth: Auth::None, from: 0 }, Act::Resp { id: 0, class: 4, auth: Auth::None, from: 0 }, Act::Resp { id: 0, class: 2, auth: Auth::MixedSha1Good(1), from: 0 }, Act::SetRemote { key: 2 }, Act::SetRemote { key: 3 }, Act::SetLocal { key: 3 }, Act::Configure { id: 0, cfg: 1 }];
+    let seconds = [Act::Resp { id: 0, class: 2, auth: Auth::Sha1(1), from: 0 }, Act::Resp { id: 0, class: 2, auth: Auth::Sha256(2), from: 0 }, Act::Resp { id: 0, class: 3, auth: Auth::Sha1(3), from: 0 }, Act::Resp { id: 0, class: 2, auth: Auth::Sha1Flipped(1), from: 0 }, Act::SetRemote { key: 1 }];
+    interventions(ctx, "C07", true, &acts).merge(pair_interventions(ctx, "C07", true, &firsts, &seconds))
 }
 
 pub fn replay(prop: &str, rp: &Value) -> Vec<Violation> {
